@@ -18,7 +18,8 @@ PROPERTY = "C13"
 RULE = ("Hypothesis lists of 1-8 results: arbitrary finite statistics, 1-3 array keys with equal / unequal / empty lengths (1-D "
         "and a 4x4 key), key sets equal or differing in one statistic or array key, any order; evo_res driven in-process on "
         "result archives written by evo (from evo_ape/evo_rpe-like results) with --use_filenames, --merge, --save_table, "
-        "duplicate labels. Non-trivial = >= 2 results and (append strategy or >= 2 array keys); distinct by SHA-1")
+        "duplicate labels. Non-trivial = >= 2 results and (append strategy or >= 2 array keys); distinct by SHA-1"
+        ' Round-3 additions: command-line order differing from file-name order, label of the merged row.')
 ASSUMPTIONS = ["when only some array keys differ in length the statement can be read per array or globally: for the equal-length "
                "keys of such a mixed case both element-wise mean and concatenation are accepted (class counted)",
                "table read back with the csv module; numbers compared with relative tolerance 1e-12"]
